@@ -220,6 +220,10 @@ def c04_e2e_lines(r, n):
         cases.append((10 ** 6, [(good, "a", 5), (m, "a", 7)]))
     for A, es in cases:
         lines.append(orb_pkt("recv", A, int_fwd(dest), [act(es)], denom=r.choice(["uusdc", "uother"])))
+    # an entry with both fee types, a null entry, under every spelling of every key on the way to it (proto name, lowerCamelCase,
+    # escapes): refused, nothing paid
+    for m in _s._camel_combo_memos():
+        lines.append(pkt_line("recv", ftpd("transfer/channel-7/uusdc", 100000, ORB, m)))
     # a computation that fails half way (overflow of the running total after valid entries) leaves nothing behind for the next ones
     for _ in range(3):
         lines.append(orb_pkt("recv", 10 ** 6, int_fwd(dest), [act([(U[6], "a", 50), (U[7], "b", 100), (good, "a", 2 ** 256 - 1)])]))
@@ -285,17 +289,34 @@ def c04_e2e_oracle(steps):
         acts = p["payload"].get("pre_actions") or []
         if len(acts) != 1:
             continue
+        if not isinstance(acts[0], dict) or not isinstance(acts[0].get("attributes"), dict):
+            continue
         infos = acts[0]["attributes"].get("fees_info") or []
         refuse = None
         credits = {}
         total = 0
         if len(infos) > 5:
             refuse = "more than five entries"
+        if not isinstance(acts[0].get("attributes"), dict) or not isinstance(infos, list):
+            continue
         for fi in infos:
             if refuse:
                 break
+            if not isinstance(fi, dict):
+                refuse = "an entry that is not a fee entry (null)"
+                break
+            if "basis_points" in fi and "amount" in fi:
+                refuse = "an entry with both fee types"
+                break
+            if "basis_points" not in fi and "amount" not in fi:
+                refuse = "an entry without a fee type"
+                break
             if "basis_points" in fi:
-                v = fi["basis_points"]["value"]
+                v = (fi["basis_points"] or {}).get("value", 0) if isinstance(fi["basis_points"], (dict, type(None))) else None
+                if not isinstance(v, int) or isinstance(v, bool):
+                    refuse = None
+                    infos = None
+                    break
                 if v == 0 or v > 10000:
                     refuse = "bps out of range"
             else:
@@ -304,6 +325,8 @@ def c04_e2e_oracle(steps):
                     refuse = "fixed amount not a positive integer"
             if decode_addr(fi.get("recipient", "")) is None:
                 refuse = refuse or "invalid recipient"
+        if infos is None:
+            continue    # a spelling this oracle does not interpret (quoted numbers …): left to the model comparison
         if not refuse:
             for fi in infos:
                 if "basis_points" in fi:
@@ -620,6 +643,20 @@ def c01_targeted(r):
     for dn in scen.DENOM_GRID:
         for m in (good_payloads := [memo(int_fwd(U[1])), memo(cctp_fwd(domain=0), [fee_action([(U[2], "b", 100)])])]):
             lines.append(pkt_line("recv", ftpd(dn, 1000, ORB, m)))
+    # sizes: valid orbiter transfers whose packet data is far larger than usual — white space inside the memo, a pretty-printed memo,
+    # long hook metadata, a long sender, white space around the packet's own fields (no limit of the sending chain binds here)
+    gm = memo(int_fwd(U[1]), [fee_action([(U[2], "b", 100)])])
+    for size in (20000, 36000, 36800, 36865, 37100, 40000, 70000, 140000):
+        padded = gm[:-1] + " " * size + "}"
+        lines.append(pkt_line("recv", ftpd("transfer/channel-7/uusdc", 1000, ORB, padded)))
+        pretty = _json.dumps(_json.loads(gm), indent=size // 40)
+        lines.append(pkt_line("recv", ftpd("transfer/channel-7/uusdc", 1000, ORB, pretty)))
+        lines.append(pkt_line("recv", ftpd("transfer/channel-7/uusdc", 1000, ORB, gm, sender="s" * size)))
+        lines.append(orb_pkt("recv", 1000, hyp_fwd(tok, domain=1, meta="0x" + "ab" * (size // 2))))
+        whole = ftpd("transfer/channel-7/uusdc", 1000, ORB, gm)
+        lines.append(pkt_line("recv", whole[:-1] + " " * size + "}"))
+        lines.append(pkt_line("recv", "{" + " " * size + whole[1:]))
+        lines.append(pkt_line("recv", ftpd("transfer/channel-7/uusdc", 1000, ORB, memo(cctp_fwd(domain=0, passthrough=b"p" * size)))))
     # every encoding of the packet's own fields: the same orbiter transfer spelled in ways a counterparty that does not
     # serialise canonically may produce (trailing bytes after the first JSON value, white space, repeated or escaped keys,
     # escaped values, reordered fields); whatever ICS-20 accepts as a transfer to the orbiter must go through the orbiter flow
@@ -1373,6 +1410,18 @@ def c05_lines(r, toks, n):
             lines.append(orb_pkt(op, 10 ** 6, hyp_fwd(tok, domain=1, recipient=rc_), denom=tdenom))
         for hk_ in shapes(hook32) + shapes(bytes(32)):
             lines.append(orb_pkt(op, 10 ** 6, hyp_fwd(tok, domain=1, recipient=r.bytes(32), hook=hk_), denom=tdenom))
+    # gas limits of every sign and width (no rule bounds them): the request carries the payload's number; first with the no-op hook
+    # (the number is not used, the transfer succeeds), then — below — under a gas paymaster with coins for the payment at hand
+    gases = [-1, -40000, -99999, -100000, -100001, -2 ** 63, 2 ** 63 - 1, 2 ** 63, 2 ** 64 - 1, 2 ** 64, 2 ** 128, 2 ** 255, 2 ** 256 - 1, 1, 99999]
+    for g_ in gases:
+        for op in ("recvh", "recv"):
+            lines.append(orb_pkt(op, 10 ** 6, hyp_fwd(tok, domain=1, recipient=r.bytes(32), gas=g_, fee=("uusdc", 10 ** 6)), denom=tdenom))
+    # under a gas paymaster the payment cannot be covered by the transferred coin (all of it is forwarded): refused, whatever the number
+    lines.append("env hyp igp %s 1 10000000000 1 100000" % hx("uusdc"))
+    for g_ in gases:
+        for op in ("recvh", "recv"):
+            lines.append(orb_pkt(op, 10 ** 6, hyp_fwd(tok, domain=1, recipient=r.bytes(32), gas=g_, fee=("uusdc", 10 ** 6)), denom=tdenom))
+    lines.append("env hyp noop")
     # hooks the payload names itself: hyperlane-cosmos resolves them by type (bytes 20..24) and number (last eight bytes) only —
     # the no-op hook of the set-up, gas paymasters created earlier (whatever the mailbox default is now), and ones that do not exist
     def hook_id(ty, n_, prefix=b"router_post_dispatch"):
@@ -1640,6 +1689,14 @@ def c07_lines(r, n):
         lines.append(pkt_line("withoutmw", b"\x00" * size))
         lines.append(pkt_line("withoutmw", ftpd("uatom", 5, "r" * size, "")))
         lines.append(pkt_line("withoutmw", ftpd("d" * size, 5, U[0], "")))
+    # the transfer application may be bound to another port than the default one (its genesis says which): the middleware is wired
+    # around the application, not around a port name
+    for dp in ("transfer-v2", "ics20", "noble.transfer", "transfer2", "t", "TRANSFER"):
+        for rc in (U[0], foreign[0], ORB):
+            lines.append(pkt_line("withoutmw", ftpd("uatom", 5, rc, ""), dst_port=dp))
+            lines.append(pkt_line("withoutmw", ftpd("uatom", 5, rc, goodmemo), dst_port=dp))
+            lines.append(pkt_line("withoutmw", ftpd("transfer/channel-7/uusdc", 5, rc, goodmemo), dst_port=dp))
+            lines.append(pkt_line("recv", ftpd("uatom", 5, rc, goodmemo), dst_port=dp))
     # all valid channel / port identifiers on the source side; channel-N on the destination side
     for sp, sc in [("transfer", "channel-0"), ("wasm.abc", "channel-99999"), ("ics20", "chan-free-form"), ("a.b_c+d-e#[f]<g>", "channel-18446744073709551615")]:
         for dc in ["channel-0", "channel-1", "channel-18446744073709551615", "channel-007"]:
@@ -2054,6 +2111,8 @@ class C08(Base):
         _, toks = scen.base_setup()
         out.append(Stream("S3-dropped-branches", dry_lines(Rng(seed * 1000 + 108), toks, self.n(tier, 80, 300))))
         out.append(Stream("S3-everything-paused-repeated-exports", everything_paused_lines()))
+        wl, walks = pcc_walk_build(Rng(seed * 1000 + 208))
+        out.append(Stream("S3-paused-listing-page-by-page", wl, fields=f, oracle=c13_make_oracle(walks), shrink=False))
         return out
 
 
@@ -2097,6 +2156,19 @@ def c10_lines(r, n):
         for b in bs:
             for sg in signers:
                 lines.append(msg_line(rpc, sg, *b))
+    # the authority itself, every RPC and every body, through the application's own message router (whatever wraps the controllers
+    # there): valid content succeeds — at the limits too (99, 100 counterparties) — and a refusal is the one the content calls for
+    many = lambda k: [hx("PROTOCOL_HYPERLANE")] + [hx(str(i + 1000)) for i in range(k)]
+    for k in (99, 100, 101):
+        lines.append(msg_line("PauseCrossChains", AUTHORITY, *many(k)))
+        lines.append(msg_line("PauseCrossChains", U[0], *many(k)))
+        lines.append(msg_line("UnpauseCrossChains", AUTHORITY, *many(k)))
+        lines.append(msg_line("UnpauseCrossChains", AUTHORITY, *many(k)))
+    for rpc, bs in bodies.items():
+        for b in bs:
+            lines.append(msg_line(rpc, AUTHORITY, *b))
+    lines.append(msg_line("UnpauseProtocol", AUTHORITY, hx("PROTOCOL_CCTP")))
+    lines.append(msg_line("ReplaceDepositForBurn", AUTHORITY, hx(b"\x01" * 248), hx(b"\x02" * 65), hx(b"\x03" * 32), hx(b"\x04" * 32)))
     # holders of roles in the bridge modules, and the module accounts themselves, are not the authority either
     roles = ["cctp.owner", "cctp.pauser", "cctp.attestermanager", "cctp.tokencontroller", "ftf.owner", "ftf.pauser", "ftf.blacklister", "ftf.masterminter"]
     holders = []
@@ -2190,7 +2262,7 @@ class C10(Base):
 
     def streams(self, tier, seed):
         r = Rng(seed * 1000 + 10)
-        f = {"msg": ["res", "st"], "msgh": ["res", "hreq", "st"]}
+        f = {"msg": ["res", "st", "ecs"], "msgh": ["res", "hreq", "st"]}
         surf, rpcs = c10_surface_lines(r.fork(2), self.n(tier, 8, 50))
         return [Stream("S3-rpc-signer-body-grid", c10_lines(r.fork(1), self.n(tier, 200, 2000)), fields=f, oracle=c10_oracle),
                 Stream("S3-descriptor-enumerated-surface", surf, model=False, oracle=c10_oracle, note="%d RPCs from the service descriptors: %s" % (len(rpcs), ",".join(x[0].split("/")[-1] for x in rpcs)))]
@@ -2221,9 +2293,18 @@ def c11_lines(r, n, toks):
         l1.append(t)
         nd = r.below(3)
         dep = {}
+        # the packet's own amount and denomination (a deposit that mirrors the coin about to arrive), its neighbours and multiples
+        try:
+            _p = packet_of(t)
+            _A = int(_p["ftpd"]["amount"])
+            _dn = _p["ftpd"]["denom"].split("/")[-1]
+        except Exception:
+            _A, _dn = 0, "uusdc"
         for _ in range(nd):
             d = r.choice(DENOMS + ["stake"])
             a = r.choice([1, 7, 10 ** 6, 10 ** 24, r.range(1, 10 ** 9)])
+            if _A > 0 and r.chance(1, 3):
+                d, a = _dn, r.choice([_A, _A, _A + 1, max(1, _A - 1), 2 * _A])
             dep[d] = dep.get(d, 0) + a
             l2.append("deposit %s %s %d" % (hx(ORB_BYTES), hx(d), a))
         i2 = len(l2)
@@ -2291,6 +2372,14 @@ class C11(Base):
                orb_pkt("recv", 10 ** 6, hyp_fwd(tok, domain=1, gas=100000, fee=("stake", 10 ** 6),
                                                  hook=b"router_post_dispatch" + (4).to_bytes(4, "big") + (1).to_bytes(8, "big"))),
                orb_pkt("recv", 10 ** 6, hyp_fwd(tok, domain=1, gas=100000, fee=("stake", 10 ** 6)))]
+        # gas limits of every sign and width and maximum fees in either denomination, with the paymaster's coins at hand: the payment
+        # is the paymaster's arithmetic on the payload's number (a maximum fee in another denomination than the paymaster's bounds nothing)
+        kf.append("env hyp igp %s 1 10000000000 1 100000" % hx("stake"))
+        for g_ in [-1, -40000, -99999, -100000, -100001, -2 ** 63, 2 ** 63 - 1, 2 ** 63, 2 ** 64 - 1, 2 ** 64, 2 ** 128, 2 ** 255, 2 ** 256 - 1, 0, 1, 99999]:
+            for mf in (("stake", 10 ** 6), ("uusdc", 10 ** 6), ("stake", 5), ("stake", 0), None):
+                kf.append("deposit %s %s 500000" % (hx(ORB_BYTES), hx("stake")))
+                kf.append(orb_pkt("recv", 10 ** 6, hyp_fwd(tok, domain=1, gas=g_, fee=mf)))
+        kf.append("env hyp noop")
         out.append(Stream("S3-igp-hook-corpus", kf, fields={"recv": ["ack", "bal"]}, oracle=c11_igp_oracle))
         out += shared_streams(seed, toks, tier, {"recv": ["ack", "bal", "mv", "st"], "recvh": ["ack", "bal", "hreq", "st"]}, c01_oracle,
                               skip=("attribute-shapes", "pause-levels", "spellings"))
@@ -2774,6 +2863,57 @@ def c13_build(r, n_hist, limits, tier, genesis=False):
     return lines, walks
 
 
+def pcc_walk_build(r):
+    """the listing of paused counterparties read page by page (forward by key, by offset in both directions, every page size): the
+    pages together are the current set, each entry once, in order — what the messages made it"""
+    from proto import Proc, IMPL
+    lines = ["setup -"]
+    lines.append(msg_line("PauseCrossChains", AUTHORITY, hx("PROTOCOL_CCTP"), *[hx(str(x)) for x in (0, 1, 10, 11, 100, 5, 55, 4294967295)]))
+    lines.append(msg_line("PauseCrossChains", AUTHORITY, hx("PROTOCOL_CCTP"), *[hx(str(x)) for x in range(200, 300)]))
+    lines.append(msg_line("PauseCrossChains", AUTHORITY, hx("PROTOCOL_INTERNAL"), *[hx(x) for x in ("a", "ab", "abc", "b", "noble")]))
+    lines.append(msg_line("PauseCrossChains", AUTHORITY, hx("PROTOCOL_HYPERLANE"), hx("7")))
+    lines.append(msg_line("UnpauseCrossChains", AUTHORITY, hx("PROTOCOL_CCTP"), hx("10"), hx("250")))
+    p = Proc([IMPL])
+    for l in lines:
+        p.ask(l)
+    walks = []
+    for pn in PROTO_NAMES:
+        q, arg = "PausedCrossChains", hx(pn)
+        ref_i = len(lines)
+        lines.append("query %s %s - 0 100000 1 0" % (q, arg))
+        ref = kv(p.ask(lines[-1]))
+        n_ref = len(split_items(ref.get("out", "[]")))
+        for lim in (1, 2, 3, 50, 100, 101, 1000):
+            for ct in (0, 1):
+                idxs, key, seen = [], "-", set()
+                for _ in range(n_ref // max(1, lim) + 8):
+                    l = "query %s %s %s 0 %d %d 0" % (q, arg, key, lim, ct)
+                    idxs.append(len(lines))
+                    lines.append(l)
+                    o = kv(p.ask(l))
+                    nk = o.get("next", "-")
+                    if o.get("res") != "ok" or nk == "-" or nk in seen:
+                        break
+                    seen.add(nk)
+                    key = nk
+                walks.append(("key", q, arg, lim, 0, ct, ref_i, idxs))
+            for rev in (0, 1):
+                idxs, off = [], 0
+                for _ in range(n_ref // max(1, lim) + 8):
+                    l = "query %s %s - %d %d 1 %d" % (q, arg, off, lim, rev)
+                    idxs.append(len(lines))
+                    lines.append(l)
+                    o = kv(p.ask(l))
+                    if o.get("res") != "ok" or o.get("out", "[]") == "[]":
+                        break
+                    off += lim
+                walks.append(("offset", q, arg, lim, rev, 1, ref_i, idxs))
+        lines.append("query %s %s nopage" % (q, arg))
+    lines.append("export")
+    p.close()
+    return lines, walks
+
+
 def split_items(out):
     return [x for x in out[1:-1].split(",") if x]
 
@@ -3183,6 +3323,8 @@ def c17_hist_oracle(steps):
                 out.append((s.i, "export-not-initialisable: the exported genesis cannot be initialised"))
             elif s.impl.get("same") != "true":
                 out.append((s.i, "export-not-fixpoint: export -> init -> export yields a different genesis"))
+            elif s.impl.get("raw", "true") != "true":
+                out.append((s.i, "store-not-restored: the module store after export -> init differs from the store before: " + s.impl.get("raw", "")[:200]))
         if s.op == "geninit" and s.line.startswith("geninit @"):
             pass
     return out
@@ -3336,7 +3478,9 @@ def c19_make_oracle(lines, nproc):
         levels = ["debug", "trace", "info", "", "error", "warn"]
 
         def one(k):
-            o, rc, err = run_batch([IMPL], lines, env={"VERIF_LOGLEVEL": levels[k % len(levels)]})
+            # …and its own number of processors and collector pace: another schedule for anything that runs concurrently
+            o, rc, err = run_batch([IMPL], lines, env={"VERIF_LOGLEVEL": levels[k % len(levels)], "GOMAXPROCS": str([1, 16, 2, 4, 8, 3][k % 6]),
+                                                       "GOGC": str([100, 1, 400, 10, 50, 200][k % 6])})
             return o
         with concurrent.futures.ThreadPoolExecutor(max_workers=min(8, nproc)) as ex:
             runs = list(ex.map(one, range(nproc - 1)))
